@@ -248,12 +248,12 @@ JUDGES = {"scripted": judge_scripted, "illegal": judge_illegal, "fail": judge_fa
 
 def shards(tier, seed):
     T = tier == "thorough"
-    return ([{"name": "scripted-%d" % l, "L": l, "reps": 60 if T else 8, "bits": 64 if T else 16} for l in LEGAL]
+    return ([{"name": "scripted-%d" % l, "L": l, "reps": 200 if T else 8, "bits": 128 if T else 16} for l in LEGAL]
             + [{"name": "illegal", "exhaustive": "every requested length 0..40"}]
             + [{"name": "fail-plain"}, {"name": "kernel", "runs": 100 if T else 16}]
             + [{"name": "fail-vanity-%d" % i, "reps": 30 if T else 4, "idx": i} for i in range(6)]
             + [{"name": "vanity-prov-%d" % i, "count": 60 if T else 6} for i in range(4)]
-            + [{"name": "lib", "count": 20000 if T else 2000}])
+            + [{"name": "lib", "count": 60000 if T else 2000}])
 
 
 def _new(L, extra=None):
